@@ -156,10 +156,11 @@ func c07(args []string) error {
 			t2, _, x2 := mkref("png", true)
 			pl = append(pl, planted{Tag: tag, Attr: "srcset", Form: f1, Quote: "dq", Role: "asset", Target: t1, Text: x1},
 				planted{Tag: tag, Attr: "srcset", Form: f1, Quote: "dq", Role: "asset", Target: t2, Text: x2})
+			sep := []string{", ", ",", ",\n   ", " , "}[r.Intn(4)] // candidates are separated by a comma, white space is optional
 			if tag == "img" {
-				body.WriteString(`<img alt=y srcset="` + x1 + ` 1x, ` + x2 + ` 2x">` + "\n")
+				body.WriteString(`<img alt=y srcset="` + x1 + ` 1x` + sep + x2 + ` 2x">` + "\n")
 			} else {
-				body.WriteString(`<picture><source srcset="` + x1 + ` 480w, ` + x2 + ` 800w"><img alt=z></picture>` + "\n")
+				body.WriteString(`<picture><source srcset="` + x1 + ` 480w` + sep + x2 + ` 800w"><img alt=z></picture>` + "\n")
 			}
 		}
 		kinds := [][5]string{{"img", "src", "", "asset", "png"}, {"script", "src", "", "asset", "js"}, {"link", "href", "stylesheet", "asset", "css"},
